@@ -64,6 +64,28 @@ def numpy_constraint_specs(ctx):
     return out
 
 
+def nonfinite_prefix_specs(ctx):
+    """optimizers that build a model / simplex / pattern from the finite-scored history, under constraints, with every score of the
+    initialisation (and a little beyond) non-finite: the fallback proposals taken while there is nothing to build from must be feasible too"""
+    rng = ctx.sub_rng("c02-nonfinite-prefix")
+    out = []
+    names = gen.SLOW + ["DirectAlgorithm", "DownhillSimplexOptimizer", "PatternSearch", "PowellsMethod", "ParticleSwarmOptimizer"]
+    for rd in range(1 if ctx.quick else 4):
+        for name in names:
+            spec = dunit.general_spec(rng, name, max_calls=1, metrics=0, sizes=(4, 5, 6), max_points=40, n_max=12, verbosity=False, steps_api=True, ndims=2)
+            feas, desc = gen.gen_constraint(rng, spec["space"], kind=rng.choice(["halfspace", "band", "parity"]))
+            spec["feasible"], spec["constraint_desc"] = feas, desc
+            ni = rng.choice([2, 3])
+            spec["init"] = {"random": ni}
+            spec["calls"] = [dict(n_iter=ni + 8, memory=False, verbosity=False)]
+            kind = rng.choice([math.nan, -math.inf, math.inf, math.nan])
+            spec["script"] = [kind] * (ni + rng.choice([0, 1, 2]))
+            if name == "ForestOptimizer":
+                spec["cfg"] = dict(spec["cfg"] or {}, tree_para={"n_estimators": 5})
+            out.append(spec)
+    return out
+
+
 def offgrid_warm_specs(ctx, n):
     """a constraint that is a predicate on the parameter VALUES (a half-space a.x > b, also defined between grid points) and
     warm-start dictionaries whose values lie between two grid points next to the border: feasible as given, but the nearest
@@ -182,12 +204,12 @@ def run(ctx):
                         "DownhillSimplex with fewer inits than dims+1, populations larger than the number of inits, repeated "
                         "calls; value-predicate constraints with warm starts between two grid points next to the border; per optimizer two longer "
                         "runs with extreme hyper-parameters; model-based optimizers under constraints written as numpy reductions (np.sum / np.linalg.norm / np.any over the "
-                        "parameters) with the optimum in the infeasible region; distinct by (optimizer, seed, constraint)")
+                        "parameters) with the optimum in the infeasible region; model- / simplex- / pattern-building optimizers under constraints with every score of the initialisation non-finite; distinct by (optimizer, seed, constraint)")
     n_fast, n_slow = (72, 8) if ctx.quick else (540, 60)
     specs = sweep.sweep_specs(ctx, "c02", n_fast, n_slow, constraint=1.0) + special_specs(ctx, 24 if ctx.quick else 160) \
         + coupled_specs(ctx, 33 if ctx.quick else 220) + offgrid_warm_specs(ctx, 36 if ctx.quick else 200) \
         + [sp_ for sp_ in sweep.extreme_specs(ctx, "c02", constraint=1.0, rounds=(1 if ctx.quick else 4)) if sp_.get("feasible") is not None] \
-        + numpy_constraint_specs(ctx)
+        + numpy_constraint_specs(ctx) + nonfinite_prefix_specs(ctx)
     for spec in specs:
         if spec.get("feasible") is None:
             continue
